@@ -6,7 +6,7 @@
  * usage: crash_h <casefile> <soft_ms> <hard_ms> <scratchdir>
  * casefile = sequence of   CASE <id> <traits> <flags> <srclen> <inlen>\n<src bytes>\n<input bytes>\n
  *   traits: m modern(default)  c classic  f flexmap off  t tolerant off  x misc (striprecspc, ncmponstr, crlf, multilinestr on; strictnaming, blankconcat off)
- *   flags : o = report console output (hex, first 4096 bytes)   - = nothing
+ *   flags : o = report console output (hex, first 4096 bytes)   d = parse with a deparse output (string)   - = nothing
  * One line per case on stdout:
  *   RESULT <id> <CLASS> stage=<parse|open|run|done> errnum=<n> msglen=<n> stmts=<n> halted=<0|1> ic=<gbl.ignorecase> leak=<blocks> msg=<hex|-> out=<hex|->
  *   CLASS: OK | PARSE_ERR | OPEN_ERR | RUN_ERR | HALTED | SKIP
@@ -151,7 +151,7 @@ static int msg_len (const hawk_bch_t* m) { size_t n = m? strlen(m): 0; if (n >= 
 static void run_case (struct kase_t* k)
 {
 	hawk_t* hawk = NULL; hawk_rtx_t* rtx = NULL; hawk_val_t* retv;
-	hawk_parsestd_t psin[2]; hawk_errnum_t en = HAWK_ENOERR; int traits, ml = 0;
+	hawk_parsestd_t psin[2], psout; hawk_errnum_t en = HAWK_ENOERR; int traits, ml = 0, parse_rc; long deparsed = -1;
 	const char* cls = "OK"; const char* stage = "parse"; int errnum = 0, ic = 0;
 	last_msg[0] = 0;
 	hawk_bch_t* icf[2]; hawk_bch_t* ocf[2]; FILE* f; size_t blocks0;
@@ -181,7 +181,10 @@ static void run_case (struct kase_t* k)
 	memset (psin, 0, sizeof(psin));
 	psin[0].type = HAWK_PARSESTD_BCS; psin[0].u.bcs.ptr = k->src; psin[0].u.bcs.len = k->srclen;
 	psin[1].type = HAWK_PARSESTD_NULL;
-	if (hawk_parsestd(hawk, psin, HAWK_NULL) <= -1)
+	memset (&psout, 0, sizeof(psout)); psout.type = HAWK_PARSESTD_OOCS;
+	parse_rc = hawk_parsestd(hawk, psin, (strchr(k->flags, 'd')? &psout: HAWK_NULL)); /* 'd': also deparse into a string, as `hawk -d` does into a file */
+	if (parse_rc >= 0 && strchr(k->flags, 'd') && psout.u.oocs.ptr) { deparsed = (long)psout.u.oocs.len; hawk_freemem (hawk, psout.u.oocs.ptr); }
+	if (parse_rc <= -1)
 	{
 		errnum = hawk_geterrnum(hawk); ml = msg_len(hawk_geterrbmsg(hawk));
 		cls = (errnum == HAWK_ENOERR)? "VIOL_ERRNUM0": (ml == 0)? "VIOL_NOMSG": "PARSE_ERR";
